@@ -9,6 +9,74 @@ COMMON_TB = ("Coq 8.16.1 kernel/coqc (vm_compute for closed witnesses, no native
              "see DESIGN.md section 9")
 
 CHECKS = {
+ 'C01': dict(
+   text="Theorems over the Gallina model of CoinState.add_block (consensus.py validation by itself + in coinstate, balances.py, "
+        "coinstate.py), for ALL hash/signature functions, parameters, states and candidate blocks: acceptance above the "
+        "checkpoint horizon implies every non-reward input is unspent at the block's parent, carries a real signature verifying "
+        "under the spent output's key over the transaction with signatures blanked, and no reference repeats in the block "
+        "(C01_accept_sound); the signed encoding determines all references and outputs (C01_signed_message_complete); on every "
+        "chain of every reachable state the stored unspent set is the successful replay of that chain (C01_chain_replay).",
+   note="Hand model tied by a differential check: generated block trees x 20 spend-rule mutants (re-assembled with valid merkle "
+        "root, evidence, proof of work) through the real add_block and the extracted model, plus an independent property oracle "
+        "(harness/spec.py). 'Prior state left exactly as it was' is a tie obligation (object digests). Crypto = oracles.",
+   technique="Coq proof (inversion of validation + replay invariant) + extracted-model correspondence on mutant blocks",
+   design="6/C01"),
+ 'C02': dict(
+   text="Theorems: what acceptance implies about values (C02_rules), the unspent total after an accepted block is at most the "
+        "parent's plus that height's subsidy (C02_step), along every validated history the unspent total at every block is "
+        "bounded by the cumulative subsidy (C02_supply), and with the constants regenerated from params.py never exceeds "
+        "2,099,999,986,350,000 (C02_max, via C16). Unbounded Python integers = N/Z.",
+   note="Same tie as C01 with the value mutants (reward +1, fee +1, fee twice, fee from another fork's state, zero, over-limit, "
+        "2^64-1, overspend) and halving boundaries reached with a patched test halving interval.",
+   technique="Coq proof (value conservation invariant over map folds) + extracted-model correspondence on mutant blocks",
+   design="6/C02"),
+ 'C03': dict(
+   text="Theorems for every hash function, block tree and parent-before-child arrival order: the unspent set stored at a block "
+        "is the replay of its ancestors; independent of arrival order and of competing forks; later arrivals leave earlier "
+        "entries untouched; per-key balances are exactly the unspent set grouped by key (value = sum, references = the "
+        "references) under an explicit, necessary freshness premise on created output keys.",
+   note="Tie: real CoinState / PublicKeyBalances / Wallet.get_balance against extracted model and an independent replay, all "
+        "parent-first orders for small trees, balance queries interleaved with arrivals, every intermediate CoinState object "
+        "re-digested (snapshot immutability is a tie obligation, not a theorem).",
+   technique="Coq proof (state invariant by induction on arrivals; balance/unspent consistency) + correspondence over arrival orders",
+   design="6/C03"),
+ 'C04': dict(
+   text="Theorems for every hash function, block tree and parent-before-child arrival order: head = earliest-arrived block of "
+        "greatest height; tips = stored blocks without stored children; by-height index at each block = its ancestors and itself; "
+        "forks() returns the last common ancestor with the active chain.",
+   note="Tie: real add_block_no_validation / forks() vs extracted model and vs the statement recomputed from the arrival list, "
+        "exhaustively for ALL parent-choice sequences up to 6 (thorough 7) arrivals, random beyond.",
+   technique="Coq proof (invariant over admissible arrivals, std++ gmap) + exhaustive small-scope correspondence",
+   design="6/C04"),
+ 'C05': dict(
+   text="Theorems: acceptance implies id below target, the prescribed target, height = parent+1 = reward height, time window, "
+        "evidence = recomputed evidence (C05_header_rules); byte comparison = numeric comparison; the prescribed target is the "
+        "parent's off a boundary and min(2^256-1, T*elapsed/span) integer-exact on one (C05_retarget_spec); bridge lemmas tie the "
+        "model to the source text of calculate_new_target / select_block_height regenerated on every run, and the shipped "
+        "constants are 10,080 / 1,209,600 / 30; the chain sampler always returns exactly the requested bytes.",
+   note="Tie: translator + bridge lemmas for the arithmetic; differential check with header-rule mutants on chains crossing "
+        "retarget boundaries on both sides of forks (test period 3-6), incl. targets derived from the other branch.",
+   technique="Coq proof + translator bridge lemmas + extracted-model correspondence on header mutants",
+   design="6/C05"),
+ 'C06': dict(
+   text="Value-level theorems under explicit injectivity premises for scrypt/blake2/sha256d: an acceptable block is determined by "
+        "any two of {summary, evidence, transaction list}; same id implies same content; different accepted byte strings are "
+        "different blocks. Byte level: every single-bit flip and truncation of sampled valid blocks is enumerated exhaustively on "
+        "implementation and model (the multi-component shifts caused by variable-length prefixes are not covered by a theorem).",
+   note="partial: the for-all-blocks byte-level statement is proved only for alterations confined to one component; the rest is "
+        "exhaustive enumeration per sampled block (5 blocks quick, 40 thorough).",
+   technique="Coq proof (injectivity premises) + exhaustive per-block bit-flip/truncation enumeration on impl and extracted model",
+   design="6/C06"),
+ 'C18': dict(
+   text="Theorems over the checkpoint table and horizon regenerated from cheating.py: at every listed height a block passes "
+        "in-state validation iff its id is the listed one; table well-formed; regenerated genesis bytes decode canonically to a "
+        "height-0 block paying 10^9. Recorded real blocks: executed with the real scrypt (ids, re-encoding, full validation, also "
+        "while a competing branch is the head) -- execution of finite data, not a theorem.",
+   note="partial by nature for the real-network clause (no Gallina scrypt). Tie: all 327 heights x right/wrong ids through the "
+        "real validate_block_in_coinstate and the model; generated chains under a test horizon with fully valid forks at "
+        "checkpointed heights.",
+   technique="Coq proof over regenerated table + execution of recorded blocks with real scrypt + extracted-model correspondence",
+   design="6/C18"),
  'C07': dict(
    text="Theorems over the Gallina codec model (VLQ, lists, 10 consensus types): round trip for every well-formed value with any "
         "trailing bytes, canonicity for EVERY byte string (decoding succeeds => re-encoding ++ rest = input), decoded values are "
